@@ -239,34 +239,52 @@ Theorem C10_remove_refines :
 Proof. intros. split; [apply remove_impl_spec|apply remove_at_impl_spec]. Qed.
 Print Assumptions C10_remove_refines.
 
-(** All calls except sort / set / the four set functions: the IMPL-MODEL outcome is the SPEC
-    outcome for ALL arguments outside the known class.
-    Full statement (not proved):
-      forall c, judge c = JSpec -> known_sum_negzero c = false -> impl_call c = spec_call c.
-    Missing: for std.sort/std.set the comparator path (keys that contain an array / null /
-    boolean / object; C10_sort_refines_classified covers every other call, C10_sort_fallible_path
-    the path itself under total comparability), and for the set functions the instantiation of
-    C10_setops_refine with [cmp_val] on array keys, which needs the order laws of [cmp_val] on
-    nested arrays (C10_setops_number_keys is the instance for number keys). *)
-Theorem C10_calls_refine_partial :
-  forall c, simple_call c = true -> known_sum_negzero c = false -> impl_call c = spec_call c.
+(** The comparison of the evaluator (evaluate_compare_op: numbers, strings, arrays
+    lexicographically, everything else an error) is the restriction of a total order on the
+    whole value universe: wherever it answers, it answers as [ctot], and [ctot] satisfies the
+    order laws the set theorems ask for. *)
+Theorem C10_compare_extends_to_total_order :
+  cmp_laws ctot /\ forall a b c, cmp_val a b = Some c -> ctot a b = c.
+Proof. split; [exact cmp_laws_ctot|exact ctot_extends]. Qed.
+Print Assumptions C10_compare_extends_to_total_order.
+
+(** std.sort / std.set on every array and key function for which the definition determines
+    the outcome (all keys pairwise comparable, a key evaluation fails, or some key compares
+    with no other): all three paths of sort.rs, including the comparator path. *)
+Theorem C10_sort_refines :
+  forall k l, sort_determinate k l = true ->
+    sort_impl k l = sort_spec k l /\ set_impl k l = set_spec k l.
+Proof. exact sort_refines_determinate. Qed.
+Print Assumptions C10_sort_refines.
+
+(** THE END-TO-END STATEMENT: for every call of the 35 functions, with any arguments, whose
+    outcome the documented definition determines ([judge c = JSpec]), the IMPL-MODEL outcome
+    (value or error) is the SPEC outcome.  No known class: the std.sum / std.avg and unstable-
+    sort findings are fixed in the repository (b7c8f41, 3588344). *)
+Theorem C10_calls_refine :
+  forall c, judge c = JSpec -> impl_call c = spec_call c.
+Proof. exact calls_refine. Qed.
+Print Assumptions C10_calls_refine.
+
+(** ... and for the 29 functions other than sort / set / the set functions, on ALL arguments *)
+Theorem C10_simple_calls_refine :
+  forall c, simple_call c = true -> impl_call c = spec_call c.
 Proof. exact simple_calls_refine. Qed.
-Print Assumptions C10_calls_refine_partial.
+Print Assumptions C10_simple_calls_refine.
 
-(** finding C10-sum-empty-negzero: on the known class the faithful model leaves the definition *)
-Theorem C10_sum_refuted :
-  exists c, known_sum_negzero c = true /\ judge c = JSpec /\ impl_call c <> spec_call c.
-Proof. exact sum_refuted. Qed.
-Print Assumptions C10_sum_refuted.
-
-(** finding C10-sort-identity-unstable-signed-zero: "an unstable sort is unobservable on identity
-    keys" is false — two different sorted permutations of one input exist *)
-Theorem C10_unstable_sort_observable :
-  exists l l' : list val,
-    Permutation l l' /\ StronglySorted (fun a b => leb_val a b = true) l' /\
-    sort_spec None l = Some l /\ l' <> l.
-Proof. exact unstable_sort_observable. Qed.
-Print Assumptions C10_unstable_sort_observable.
+Example C10_calls_refine_nonvacuous :
+  judge (CSort (VArr [VArr [VNum 1; VNull]; VArr [VNum 0]; VArr [VNum 2]]) None) = JSpec /\
+  impl_call (CSort (VArr [VArr [VNum 1; VNull]; VArr [VNum 0]; VArr [VNum 2]]) None)
+  = Some (OVal (VArr [VArr [VNum 0]; VArr [VNum 1; VNull]; VArr [VNum 2]])) /\
+  judge (CSort (VArr [VArr [VNum 1]; VNull; VArr [VNum 2]]) None) = JSpec /\
+  impl_call (CSort (VArr [VArr [VNum 1]; VNull; VArr [VNum 2]]) None) = None /\
+  judge (CSetMember (VArr [VNum 7; VNum 9]) (VArr [VArr [VNum 1]; VArr [VNum 7]]) (Some FFirst)) = JSpec /\
+  impl_call (CSetMember (VArr [VNum 7; VNum 9]) (VArr [VArr [VNum 1]; VArr [VNum 7]]) (Some FFirst))
+  = Some (OVal (VBool true)) /\
+  judge (CSetDiff (VArr [VArr [VNum 1]; VArr [VNum 1; VNum 2]]) (VArr [VArr [VNum 1; VNum 2]]) None) = JSpec /\
+  impl_call (CSetDiff (VArr [VArr [VNum 1]; VArr [VNum 1; VNum 2]]) (VArr [VArr [VNum 1; VNum 2]]) None)
+  = Some (OVal (VArr [VArr [VNum 1]])).
+Proof. repeat split; reflexivity. Qed.
 
 (** fold laws *)
 Theorem C10_fold_laws :
